@@ -38,6 +38,9 @@ def history_alphabet(pair, cross: bool) -> list:
     evs.append(["line", [1, 255, 4, 0, 0, "fw"]])
     evs.append(["reboot", 1])
     evs.append(["send", [1, 255, 3, 0, 13, ""], False])
+    if R.is2x(old):
+        evs.append(["send", [1, 255, 3, 0, 18, ""], None])  # a heartbeat request through the normal (buffered) path
+        evs.append(["line", [9, 255, 3, 0, 22, "7"]])  # a heartbeat response from a node nobody knows (the exception concerns known nodes)
     if not cross:
         evs.append(["line", [0, 255, 3, 0, 14, "ready"]])
         evs.append(["line", [9, 3, 1, 0, 0, "a"]])  # unknown node
@@ -231,6 +234,9 @@ def run(ctx: core.Ctx) -> core.Report:
     depth = 4 if ctx.quick else 6
     cfgs_h = [{"pair": p, "cross": False, "mode": "hist"} for p in SAME_MAJOR]
     cfgs_h += [{"pair": p, "cross": True, "mode": "hist", "prefix": [["line", [1, 255, 0, 0, 17, "2.0"]], ["line", [1, 3, 0, 0, 6, "d"]]]} for p in CROSS_MAJOR]
+    # deeper: start from a sleeping node with a parked command (2.0 vs 2.1 share the heartbeat wake)
+    cfgs_h.append({"pair": ["2.0", "2.1"], "cross": False, "mode": "hist",
+                   "prefix": [["line", [1, 255, 0, 0, 17, "2.0"]], ["line", [1, 3, 0, 0, 6, "d"]], ["line", [1, 255, 3, 0, 22, "0"]], ["send", [1, 3, 1, 0, 2, "s"], None]]})
     res = bfs.search(ctx, MOD, cfgs_h, max_depth=depth)
     cfgs_s = []
     for p in SAME_MAJOR:
